@@ -25,6 +25,9 @@ LATE = {
     "C13-f": "bypass FIFO depths with depth+16 a power of two (16, 48)",
     "C02-f": "configuration with tCCD of two controller cycles and same-row streams",
     "C03-f": "refresh-race schedule on a configuration with tRAS - tRCD > 4 controller cycles (DDR4 at 300 MHz)",
+    "C10-f": "reverse bridge driver puts don't-care values on the command payload while cmd.valid is low",
+    "C05-f": "aggressor streams with a one-cycle bubble after every access (rbubble / wbubble)",
+    "C12-g": "AXI ports with a 64-bit data path (data bytes != address bytes)",
     "C08-e": "crossing combined with width conversion (xbar-conv scenarios, nocross mode)",
     "C10-e": "FIFO-like native side family `eager` (found D23; the change itself is neutralised by the repair, see seeded/obsolete/)",
 }
